@@ -6,13 +6,14 @@ use crate::term::*;
 use crate::tree::*;
 
 /// returns (impl line, oracle failure, nontrivial)
-pub fn eval(p: &Prog, sols: Option<&Vec<Vec<T>>>) -> (String, Option<String>, bool) {
+pub fn eval(p: &Prog, sols: Option<&Vec<Vec<T>>>) -> (String, Option<String>, bool, u64) {
     let out = run_prog(p);
+    let fuel = model_fuel(&out);
     let line = show_run(&out, false);
     let answers = match &out {
         RunOut::Answers(a, _) => a,
-        RunOut::Budget(_) => return (line, Some("pure tree program exhausted the step budget".into()), true),
-        RunOut::Panic(s) => return (line, Some(format!("panic at {}", s)), true),
+        RunOut::Budget(_) => return (line, Some("pure tree program exhausted the step budget".into()), true, fuel),
+        RunOut::Panic(s) => return (line, Some(format!("panic at {}", s)), true, fuel),
     };
     let own;
     let sols = match sols {
@@ -50,7 +51,7 @@ pub fn eval(p: &Prog, sols: Option<&Vec<Vec<T>>>) -> (String, Option<String>, bo
         }
     }
     let nt = answers.iter().any(|a| !a.constraints.is_empty()) || answers.len() > 1;
-    (line, fail, nt)
+    (line, fail, nt, fuel)
 }
 
 fn corpus() -> Vec<&'static str> {
@@ -67,7 +68,7 @@ fn corpus() -> Vec<&'static str> {
 }
 
 fn record(p: &Prog, sols: Option<&Vec<Vec<T>>>, out: &mut Out, tagstat: &str) {
-    let (line, fail, nt) = eval(p, sols);
+    let (line, fail, nt, fuel) = eval(p, sols);
     out.stat(tagstat);
     if line.contains("@ -") == false && line != "none" {
         out.stat("programs_with_constraints_in_answers");
@@ -75,7 +76,7 @@ fn record(p: &Prog, sols: Option<&Vec<Vec<T>>>, out: &mut Out, tagstat: &str) {
     if line == "none" {
         out.stat("programs_without_answers");
     }
-    out.push(p.line(), line, fail, nt);
+    out.push(p.line_f(fuel), line, fail, nt);
 }
 
 pub fn replay(line: &str, out: &mut Out) {
